@@ -1,6 +1,7 @@
 package postprocessor
 
 import (
+	"fmt"
 	"io"
 	"net/http"
 
@@ -50,7 +51,12 @@ func (p *VarXpathPostprocessor) getValuesFromDOM(doc *html.Node, xpathQuery stri
 		return nil, err
 	}
 
-	iter := expr.Evaluate(htmlquery.CreateXPathNavigator(doc)).(*xpath.NodeIterator)
+	res := expr.Evaluate(htmlquery.CreateXPathNavigator(doc))
+	iter, ok := res.(*xpath.NodeIterator)
+	if !ok {
+		// expression yields a number, a string or a boolean, not a node-set
+		return []string{fmt.Sprint(res)}, nil
+	}
 
 	var values []string
 	for iter.MoveNext() {
